@@ -42,12 +42,15 @@ impl<'t> TreeConstruct<'t> for Recorder {
 pub struct Actions {
     /// (production number, number of children, number of token children)
     pub calls: Vec<(usize, usize)>,
+    /// per call: production number and the children handed over (token type, or -1 for a non-terminal)
+    pub full: Vec<(usize, Vec<i64>)>,
     pub comments: Vec<(u16, usize)>,
 }
 
 impl<'t> UserActionsTrait<'t> for Actions {
     fn call_semantic_action_for_production_number(&mut self, prod_num: usize, children: &[ParseTreeType<'t>]) -> parol_runtime::Result<()> {
         self.calls.push((prod_num, children.len()));
+        self.full.push((prod_num, children.iter().map(|c| match c { ParseTreeType::T(t) => t.token_type as i64, ParseTreeType::N(_) => -1 }).collect()));
         if self.calls.len() > 20000 {
             // far more semantic actions than any input of a few dozen tokens can need: the parser
             // is reducing in a cycle. Stop it through the user-action error channel.
@@ -61,6 +64,9 @@ impl<'t> UserActionsTrait<'t> for Actions {
 }
 
 impl Actions {
+    pub fn sx_full(&self) -> String {
+        format!("({})", self.full.iter().map(|(p, cs)| format!("({p} ({}))", cs.iter().map(|c| c.to_string()).collect::<Vec<_>>().join(" "))).collect::<Vec<_>>().join(" "))
+    }
     pub fn sx(&self) -> String {
         format!("({})", self.calls.iter().map(|(p, n)| format!("({p} {n})")).collect::<Vec<_>>().join(" "))
     }
